@@ -516,6 +516,77 @@ func TestCancelArrival(t *testing.T) {
 	}
 }
 
+// TestSlowArrival runs, in real time, an arrival whose attempt on the delegate takes longer than the backlog timeout (it
+// is parked inside the delegate for 50 ms, the timeout is 30 ms): once it is in the backlog it still waits no longer
+// than the backlog timeout (C13: the bound counts from when the caller starts waiting; a wait without any timer is the
+// worst reading of "the budget is used up").
+func TestSlowArrival(t *testing.T) {
+	w := newNdWriter(t, filepath.Join(outDir(t), "slowarrival_trace.ndjson"))
+	defer w.close()
+	trace := 0
+	for rep := 0; rep < envInt("VERIF_N", 2); rep++ {
+		for _, ord := range []string{"fifo", "lifo"} {
+			for _, point := range []string{"acq.enter", "acq.exit"} {
+				names := []string{"h", "a1"}
+				c := newController()
+				s := newScenario(t, c, names)
+				s.settle = func() { s.settleRealTime(5*time.Millisecond, 300*time.Millisecond) }
+				c.emit = s.ev
+				limiter.VerifPoint = nil
+				dl, busy, err := newDelegate(1, rep%2 == 1)
+				if err != nil {
+					t.Fatal(err)
+				}
+				gl := &GatedLimiter{c: c, inner: dl}
+				reg := newRecordingRegistry()
+				o := limiter.OrderingFIFO
+				if ord == "lifo" {
+					o = limiter.OrderingLIFO
+				}
+				s.lim = limiter.NewQueueBlockingLimiterFromConfig(gl, limiter.QueueLimiterConfig{Ordering: o, MaxBacklogSize: 4, MaxBacklogTimeout: 30 * time.Millisecond, MetricRegistry: reg})
+				s.extra = func() J {
+					q, _ := reg.GaugeByID(core.MetricQueueSize)
+					return J{"busy": busy(), "gauge": int(dl.VerifInFlight()), "q": q}
+				}
+				cfg := wrapCfg{Kind: "queue", Ctor: "slow-arrival/" + point, Limit: 1, QMax: 4, QTimeout: 30, Ordering: ord, Expect: "any", Procs: names}
+				w.write(J{"ev": "Reset", "trace": trace, "cfg": cfg, "obs": s.observe()})
+				i := 0
+				do := func(st schedStep) bool {
+					if err := s.apply(st); err != nil {
+						t.Logf("trace %d: %v", trace, err)
+						return false
+					}
+					i++
+					w.write(J{"ev": "Step", "trace": trace, "i": i, "step": st, "evs": s.events(), "obs": s.observe()})
+					return true
+				}
+				do(schedStep{A: "start", P: "h", Call: "acquire"})
+				c.mu.Lock()
+				c.enabled[point] = true
+				c.mu.Unlock()
+				do(schedStep{A: "start", P: "a1", Call: "acquire"})
+				c.mu.Lock()
+				c.enabled = map[string]bool{}
+				c.mu.Unlock()
+				do(schedStep{A: "tick", N: 50})
+				do(schedStep{A: "pass", P: "a1", Gate: point})
+				do(schedStep{A: "tick", N: 60})
+				do(schedStep{A: "start", P: "h", Call: "release", Outcome: "success"})
+				if s.procs["a1"].state == "granted" {
+					do(schedStep{A: "start", P: "a1", Call: "release", Outcome: "success"})
+				}
+				w.write(J{"ev": "End", "trace": trace, "i": i + 1, "obs": s.observe()})
+				c.disableAll()
+				c.passAll()
+				for _, n := range names {
+					s.procs[n].cancel()
+				}
+				trace++
+			}
+		}
+	}
+}
+
 // TestArrivalRace runs, in real time, a second arrival while the first arrival is parked between its failed
 // attempt and its backlog length check + push (holding the limiter mutex on this tree, so the second one waits):
 // the backlog must never hold more callers than its maximum and an arrival at a full backlog is refused (C12).
